@@ -11,6 +11,7 @@ import (
 	"testing"
 	"time"
 
+	"github.com/bokysan/socketace/v2/internal/socketace"
 	"github.com/bokysan/socketace/v2/internal/zzverif/vlib"
 	"pgregory.net/rapid"
 )
@@ -477,5 +478,122 @@ func TestWriteThenCloseHammer(t *testing.T) {
 			}
 			vlib.Rec.Extra(fmt.Sprintf("hammer_connections_gomaxprocs_%d", procs), n/2)
 		}()
+	}
+}
+
+// TestLongLivedConnection: the property holds for connections of any age, in particular for one that outlives the
+// session negotiation's own time limit (an exported variable, lowered here from 30 s to 2 s): on every carrier one logical
+// connection is opened, used, left idle until the limit has passed, used again in both directions and closed by either
+// side; everything written before the close and then end-of-stream must arrive.
+func TestLongLivedConnection(t *testing.T) {
+	old := socketace.HandshakeTimeout
+	socketace.HandshakeTimeout = 2 * time.Second
+	defer func() { socketace.HandshakeTimeout = old }()
+	type result struct {
+		d       map[string]interface{}
+		problem string
+		skip    bool
+	}
+	var todo []config
+	for _, c := range configs {
+		if c.carrier != vlib.CarDNS { // the DNS pair is process-wide and shared with the other tests of this package
+			todo = append(todo, c, c)
+		}
+	}
+	results := make([]result, len(todo))
+	var wg sync.WaitGroup
+	for i, c := range todo {
+		wg.Add(1)
+		go func(i int, c config) {
+			defer wg.Done()
+			closer := []string{"app", "target"}[i%2]
+			d := map[string]interface{}{"config": c.name, "closer": closer, "idle_s": 2.6, "negotiation_limit_s": 2}
+			results[i].d = d
+			part1, part2 := vlib.PRF(uint64(500+i), 0, 40000), vlib.PRF(uint64(600+i), 0, 70000)
+			phase2 := make(chan struct{})
+			type obs struct {
+				data  []byte
+				ended bool
+			}
+			tgtObs := make(chan obs, 1)
+			tgt := vlib.NewTarget("data", func(tc *vlib.TargetConn) {
+				defer tc.Conn.Close()
+				if closer == "target" {
+					tc.Conn.Write(part1)
+					<-phase2
+					tc.Conn.Write(part2)
+					return // closes
+				}
+				data, ended, _ := readToEOF(tc.Conn, 30*time.Second)
+				tgtObs <- obs{data, ended}
+			})
+			defer tgt.Close()
+			pc := vlib.PairConfig{Carrier: c.carrier, ClientInsecure: true,
+				Channels:  []vlib.ChannelSpec{{Name: "data", Target: tgt.URL()}},
+				Listeners: []vlib.ListenerSpec{{Channel: "data"}}}
+			if c.sec != "plain" {
+				pc.ServerCert = &vlib.GetPKI().ServerGood
+			}
+			p, err := vlib.StartPair(pc)
+			if err != nil {
+				results[i].skip = true
+				return
+			}
+			defer p.Close()
+			app, err := p.Dial("data")
+			if err != nil {
+				results[i].problem = "dial: " + err.Error()
+				return
+			}
+			defer app.Close()
+			want := append(append([]byte{}, part1...), part2...)
+			if closer == "app" {
+				app.SetWriteDeadline(time.Now().Add(20 * time.Second))
+				if _, err := app.Write(part1); err != nil {
+					results[i].problem = "first write: " + err.Error()
+					return
+				}
+				time.Sleep(2600 * time.Millisecond)
+				app.SetWriteDeadline(time.Now().Add(20 * time.Second))
+				n, werr := app.Write(part2)
+				app.Close()
+				select {
+				case o := <-tgtObs:
+					if off := vlib.FirstDiff(o.data, want[:len(part1)+n]); off != -1 {
+						results[i].problem = fmt.Sprintf("the application wrote %d bytes, idled 2.6s, wrote %d more (accepted %d, %v) and closed; the target received %d bytes, first difference at %d, end-of-stream=%v", len(part1), len(part2), n, werr, len(o.data), off, o.ended)
+					} else if !o.ended {
+						results[i].problem = "the target received everything but no end-of-stream"
+					}
+				case <-time.After(35 * time.Second):
+					results[i].problem = "the target saw no end of the connection within 35s"
+				}
+				return
+			}
+			got, _ := vlib.ReadFullTimeout(app, len(part1), 20*time.Second)
+			if vlib.FirstDiff(got, part1) != -1 {
+				results[i].problem = fmt.Sprintf("first part: %d of %d bytes", len(got), len(part1))
+				return
+			}
+			time.Sleep(2600 * time.Millisecond)
+			close(phase2)
+			rest, ended, rerr := readToEOF(app, 30*time.Second)
+			if off := vlib.FirstDiff(rest, part2); off != -1 {
+				results[i].problem = fmt.Sprintf("the target wrote %d bytes after the connection had idled 2.6s and closed; the application received %d, first difference at %d (%v)", len(part2), len(rest), off, rerr)
+			} else if !ended {
+				results[i].problem = "the application received everything but no end-of-stream"
+			}
+		}(i, c)
+	}
+	wg.Wait()
+	for _, r := range results {
+		if r.skip {
+			vlib.Rec.Inconclusive("setup")
+			continue
+		}
+		vlib.Rec.Case(fmt.Sprintf("long-lived %v", r.d), true, []string{"long-lived", "cfg:" + fmt.Sprint(r.d["config"]), "closer:" + fmt.Sprint(r.d["closer"])}, func() interface{} { return r.d })
+		if r.problem != "" {
+			vlib.Rec.Violation(map[string]interface{}{"property": "C17", "case": r.d, "problem": r.problem})
+			t.Errorf("C17 long-lived %v: %s", r.d, r.problem)
+		}
 	}
 }
